@@ -213,6 +213,9 @@ def check_placement(eng, walk, mol_idx, node, p, prev, q, is_start):
         V.append(("outside-box", "residue (%d,%s) placed at %s outside the box %s" % (mol_idx, node, p.tolist(), box.tolist())))
     if is_start:
         stat("start_placements")
+        if np.any(p >= box):
+            V.append(("start-on-upper-face", "start position %s lies on the upper face of the periodic cell %s (the cell is "
+                      "[0, L): the neighbour search refuses such a point)" % (p.tolist(), box.tolist())))
         grid = CTX["build"].box_grid if CTX.get("build") is not None else None
         if grid is not None and walk is not None and np.array_equal(p, np.asarray(walk.start, dtype=float)):
             d = np.abs(np.asarray(grid) - p).sum(axis=1).min()
